@@ -343,6 +343,16 @@ func TestC02_P_DirIsMap(t *testing.T) {
 }
 
 // Threshold straddle: entry sets whose estimated size is exactly threshold-1, threshold, threshold+1.
+// c02ThresholdPlus: the exact-threshold set (a proper prefix of the entries sums to exactly the threshold) followed by
+// `extra` more entries, so the total is above the threshold.
+func c02ThresholdPlus(salt, extra int) []entrySpec {
+	es := c02ThresholdSet(shardThreshold, salt)
+	for i := 0; i < extra; i++ {
+		es = append(es, entryFor(fmt.Sprintf("zzzz-extra-%d-%d", salt, i), salt))
+	}
+	return es
+}
+
 func c02ThresholdSet(target int, salt int) []entrySpec {
 	var es []entrySpec
 	total := 0
@@ -371,12 +381,18 @@ func c02ThresholdSet(target int, salt int) []entrySpec {
 func TestC02_P_Threshold(t *testing.T) {
 	ev := newEvid(t, "auto-sharding threshold straddle: entry sets of ~1150 entries with 200-byte names whose estimate (sum of name length + CID length) is exactly 262144-1, 262144, 262144+1, built with BuildUnixFSDirectory and the quick builder; same map oracle; all cases non-trivial; distinct by (delta, builder, salt)")
 	rapid.Check(t, func(t *rapid.T) {
-		delta := rapid.IntRange(-1, 1).Draw(t, "delta")
+		delta := rapid.IntRange(-1, 2).Draw(t, "delta")
 		salt := rapid.IntRange(0, 9999).Draw(t, "salt")
 		how := rapid.SampledFrom([]string{"plain", "quick"}).Draw(t, "builder")
-		es := c02ThresholdSet(shardThreshold+delta, salt)
-		if estimateSize(es) != shardThreshold+delta {
-			t.Fatalf("harness bug: estimate %d", estimateSize(es))
+		var es []entrySpec
+		if delta == 2 {
+			// a prefix of the entries sums to exactly the threshold, the whole set is above it
+			es = c02ThresholdPlus(salt, rapid.IntRange(1, 3).Draw(t, "extra"))
+		} else {
+			es = c02ThresholdSet(shardThreshold+delta, salt)
+			if estimateSize(es) != shardThreshold+delta {
+				t.Fatalf("harness bug: estimate %d", estimateSize(es))
+			}
 		}
 		var names []string
 		for _, e := range es {
